@@ -100,13 +100,35 @@ variable [SF ℝ]
 
 /-! ### normal forms over ℝ -/
 
-theorem gamma_cdf_real (d : Gamma ℝ) (x : ℝ) :
-    Gamma.cdf d x = if x ≤ 0 then 0 else SF.gamma_lr d.f_shape (x * d.f_rate) := by
+/-- Unconditional normal form of `Gamma.cdf` over ℝ: the `scaled == 0.0` guard (a21bb2d) survives as
+`x * rate = 0`; the `is_infinite` guards vanish (`RFun.isInf = false` over ℝ). -/
+theorem gamma_cdf_real_full (d : Gamma ℝ) (x : ℝ) :
+    Gamma.cdf d x = if x ≤ 0 then 0 else if x * d.f_rate = 0 then 0
+      else SF.gamma_lr d.f_shape (x * d.f_rate) := by
   unfold Gamma.cdf; rfun_norm; norm_num
 
-theorem gamma_sf_real (d : Gamma ℝ) (x : ℝ) :
-    Gamma.sf d x = if x ≤ 0 then 1 else SF.gamma_ur d.f_shape (x * d.f_rate) := by
+theorem gamma_sf_real_full (d : Gamma ℝ) (x : ℝ) :
+    Gamma.sf d x = if x ≤ 0 then 1 else if x * d.f_rate = 0 then 1
+      else SF.gamma_ur d.f_shape (x * d.f_rate) := by
   unfold Gamma.sf; rfun_norm; norm_num
+
+/-- For a non-zero rate (the constructor enforces `0 < rate`) the `scaled == 0.0` guard is vacuous
+beyond `x ≤ 0`. -/
+theorem gamma_cdf_real (d : Gamma ℝ) (x : ℝ) (hr : d.f_rate ≠ 0) :
+    Gamma.cdf d x = if x ≤ 0 then 0 else SF.gamma_lr d.f_shape (x * d.f_rate) := by
+  rw [gamma_cdf_real_full]
+  split_ifs with h1 h2
+  · rfl
+  · exact absurd h2 (mul_ne_zero (by intro h; exact h1 h.le) hr)
+  · rfl
+
+theorem gamma_sf_real (d : Gamma ℝ) (x : ℝ) (hr : d.f_rate ≠ 0) :
+    Gamma.sf d x = if x ≤ 0 then 1 else SF.gamma_ur d.f_shape (x * d.f_rate) := by
+  rw [gamma_sf_real_full]
+  split_ifs with h1 h2
+  · rfl
+  · exact absurd h2 (mul_ne_zero (by intro h; exact h1 h.le) hr)
+  · rfl
 
 theorem chi_cdf_real (d : Chi) (x : ℝ) :
     Chi.cdf d x = if x = (RFun.inf : ℝ) then 1 else if x ≤ 0 then 0
